@@ -48,6 +48,7 @@ Record sim_facts := mkSimFacts {
   f_ptc_cmp : cmpk;      (* simulate_protocol_time_course refusal: time_points[-1] <= t_start *)
   f_win_lo : cmpk;       (* window: full_time_points > t_start *)
   f_win_hi : cmpk;       (* window: full_time_points <= t_end *)
+  f_updvar_keeps : bool; (* update_variables keeps an override made since the last simulation *)
   f_shapes_ok : bool     (* the functions modelled with a fixed shape are textually unchanged *)
 }.
 
